@@ -4,6 +4,7 @@ import (
 	"errors"
 	"fmt"
 	"math/rand"
+	"runtime"
 	"time"
 
 	fpgo "github.com/TeaEntityLab/fpGo/v2"
@@ -121,7 +122,107 @@ func c06Instantiation[T any](c *core.Ctx, tname string, mk func(i int) T, id fun
 	}
 }
 
+// spare nodes given back in bulk (ClearNodePool / KeepNodePoolCount after a large drain) while the owner carries on at
+// once, with and without a short pause: whatever the release does, it does it before the call returns
+func c06ReleaseThenCarryOn(c *core.Ctx) {
+	for round := 0; round < 900; round++ {
+		c.Eval(1)
+		c.DistinctAdd(1)
+		bad := ""
+		pv, where := core.Catch(func() {
+			q := fpgo.NewLinkedListQueue[int]()
+			next, head := 0, 0
+			offer := func(n int) {
+				for i := 0; i < n; i++ {
+					q.Offer(next)
+					next++
+				}
+			}
+			poll := func(n int) {
+				for i := 0; i < n && bad == ""; i++ {
+					v, err := q.Poll()
+					if err != nil || v != head {
+						bad = fmt.Sprintf("Poll returned (%d, %v), want %d", v, err, head)
+					}
+					head++
+				}
+			}
+			offer(200 + round%50)
+			poll(150)
+			switch round % 3 {
+			case 0:
+				q.ClearNodePool()
+			case 1:
+				q.KeepNodePoolCount(1)
+			default:
+				q.KeepNodePoolCount(0)
+			}
+			// the owner carries on AT ONCE (a few items come and go: their nodes are the new spare list), then is busy
+			// elsewhere for a moment
+			offer(8)
+			poll(8)
+			switch round % 4 {
+			case 1:
+				runtime.Gosched()
+			case 2:
+				time.Sleep(200 * time.Microsecond)
+			case 3:
+				time.Sleep(2 * time.Millisecond)
+			}
+			for k := 0; k < 6 && bad == ""; k++ {
+				poll(20)
+				offer(30)
+				if k == 2 {
+					time.Sleep(300 * time.Microsecond)
+				}
+			}
+			poll(next - head)
+			if bad == "" && q.Count() != 0 {
+				bad = fmt.Sprintf("Count()=%d after a complete drain", q.Count())
+			}
+		})
+		if pv != nil {
+			bad = fmt.Sprintf("panics: %v at %s", pv, where)
+		}
+		if bad != "" {
+			c.Violationf("release-then-carry-on", map[string]any{"round": round}, "200+ Offers, 150 Polls, then %s, a pause of %s, then Polls and Offers again: %s", [...]string{"ClearNodePool()", "KeepNodePoolCount(1)", "KeepNodePoolCount(0)"}[round%3], [...]string{"nothing", "one Gosched", "200 us", "2 ms"}[round%4], bad)
+			return
+		}
+	}
+	// a queue held BY VALUE (a copy of the freshly constructed, unused queue, e.g. as a struct field)
+	c.Eval(1)
+	c.DistinctAdd(1)
+	pv, where := core.Catch(func() {
+		type holder struct{ items fpgo.LinkedListQueue[int] }
+		h := holder{items: *fpgo.NewLinkedListQueue[int]()}
+		q := &h.items
+		if _, err := q.Peek(); err == nil {
+			c.Violationf("held-by-value", nil, "Peek on an empty queue held by value returned no error")
+		}
+		if _, err := q.Pop(); err != fpgo.ErrStackIsEmpty {
+			c.Violationf("held-by-value", nil, "Pop on an empty queue held by value returned %v", err)
+		}
+		for i := 1; i <= 5; i++ {
+			q.Offer(i)
+		}
+		q.Unshift(0)
+		for want := 0; want <= 5; want++ {
+			if v, err := q.Poll(); err != nil || v != want {
+				c.Violationf("held-by-value", nil, "a LinkedListQueue held by value (copy of the freshly constructed queue): Poll returned (%d, %v), want %d", v, err, want)
+				return
+			}
+		}
+		if _, err := q.Poll(); err != fpgo.ErrQueueIsEmpty || q.Count() != 0 {
+			c.Violationf("held-by-value", nil, "drained queue held by value: Poll error %v, Count %d", err, q.Count())
+		}
+	})
+	if pv != nil {
+		c.Violationf("held-by-value:panic", nil, "a LinkedListQueue held by value (copy of the freshly constructed, unused queue) panics: %v at %s", pv, where)
+	}
+}
+
 func c06Generic(c *core.Ctx) {
+	c06ReleaseThenCarryOn(c)
 	steps := c.Pick(3000, 40000)
 	start := time.Now()
 	for round := 0; round < 2; round++ {
